@@ -172,6 +172,14 @@ theorem relAux_free (R : List Nat) (i : Nat) (ss : List Slot) (j : Nat) :
       cases s <;> simp [Slot.isLive] <;> split <;> simp_all
     | succ j => simp only [relAux, List.getElem?_cons_succ]; exact ih (i+1) j
 
+theorem relhAux_free (h : Nat) (ss : List Slot) (j : Nat) :
+    (relhAux h ss)[j]? = some Slot.free ↔ ss[j]? = some Slot.free := by
+  unfold relhAux
+  simp only [List.getElem?_map]
+  cases hj : ss[j]? with
+  | none => simp
+  | some x => cases x <;> simp <;> split <;> simp_all
+
 theorem wf_newBlk (a n : Nat) : WF (newBlk a n) := by
   refine ⟨List.nodup_range, ?_⟩
   intro o
@@ -200,7 +208,7 @@ theorem wf_applyBOp {op : BOp} {b : Blk} {r : BRes} (hw : WF b) (h : applyBOp op
     simp only [applyBOp] at h
     split at h
     · injection h with h; subst h
-      exact ⟨hw.1, fun o => by simp only [relAux_free]; exact hw.2 o⟩
+      exact ⟨hw.1, fun o => by simp only [relhAux_free]; exact hw.2 o⟩
     · cases h
   | clearAff => simp only [applyBOp] at h; injection h with h; subst h; exact hw
   | bump => simp only [applyBOp] at h; injection h with h; subst h; exact hw
@@ -294,6 +302,7 @@ theorem allWF_step {s s' : St} {e : Ev} (hw : AllWF s) (h : step s e = some s') 
         · exact allWF_applyWrite hw h
         · cases h
       · injection h with h; subst h; exact hw
+    · split at h <;> (injection h with h; subst h; exact hw)
     · injection h with h; subst h; exact hw
 
 theorem allWF_run {s s' : St} {evs : List Ev} (hw : AllWF s) (h : run s evs = some s') : AllWF s' := by
